@@ -378,7 +378,7 @@ func JSONGetItems(val *fastjson.Value, prop string) ItemCollection {
 			}
 		}
 	case fastjson.TypeObject:
-		if i := JSONGetItem(val, prop); i != nil {
+		if i, _ := JSONLoadItem(val); i != nil {
 			it.Append(i)
 		}
 	case fastjson.TypeString:
